@@ -156,6 +156,21 @@ func successors(p *program, reduced bool, must string) []*program {
 			emit(pNode{Op: "Reshape", In: []string{x, shp}, Out: []string{fresh(0)}, NRet: 1, Inits: map[string]*ref.T{shp: ref.I64Vec(2, 1, 2)}}, []string{"S"})
 		}
 	}
+	if !reduced {
+		// forwarding operators: with these arguments the result equals the operand, and an implementation may hand the
+		// operand object itself on under the new name (one tensor object bound to two names of the environment)
+		for _, sv := range []struct {
+			vals  []string
+			sort  string
+			shape []int64
+		}{{M, "M", []int64{2, 2}}, {S, "S", []int64{2, 1, 2}}} {
+			for _, x := range sv.vals {
+				shp := fmt.Sprintf("n%d_same", k)
+				emit(pNode{Op: "Expand", In: []string{x, shp}, Out: []string{fresh(0)}, NRet: 1, Inits: map[string]*ref.T{shp: ref.I64Vec(sv.shape...)}, Desc: "same-shape"}, []string{sv.sort})
+				emit(pNode{Op: "Concat", Attrs: []hx.Attr{hx.AInt("axis", 0)}, In: []string{x}, Out: []string{fresh(0)}, NRet: 1, Desc: "single-input"}, []string{sv.sort})
+			}
+		}
+	}
 	for _, x := range M {
 		for _, y := range M {
 			if !reduced {
@@ -239,7 +254,14 @@ func successors(p *program, reduced bool, must string) []*program {
 					} else {
 						mid[0] = ""
 					}
-					schemes = [][]string{arb, spec, perm, arb[:nret-1], mid}
+					// trailing optional outputs omitted by EMPTY names at the end of the list (legal ONNX, as is a shorter list)
+					trail := append([]string{}, arb...)
+					trail[nret-1] = ""
+					onlyY := append([]string{}, arb...)
+					for j := 1; j < nret; j++ {
+						onlyY[j] = ""
+					}
+					schemes = [][]string{arb, spec, perm, arb[:nret-1], mid, trail, onlyY}
 					if reduced {
 						schemes = schemes[:1]
 					}
